@@ -118,6 +118,9 @@ func extraReps() []rep {
 		{"connect/garbage-auth", txt("0a")},
 		{"connect/other-namespace", txt("0/a,")},
 		{"connect/with-id", txt("01")},
+		{"connect/null-auth", txt("0null")},
+		{"disconnect/null-payload", txt("1null")},
+		{"connect-error/null-payload", txt("4null")},
 		{"disconnect/plain", txt("1")},
 		{"disconnect/garbage", txt("1a")},
 		{"disconnect/unknown-namespace", txt("1/a,")},
@@ -144,6 +147,8 @@ func extraReps() []rep {
 		{"binary-event/valid-1-text-attachment", withText(`51-["a",`+ph0+`]`, 1)},
 		{"binary-event/valid-nested-1", withBin(`51-["a",{"a":`+ph0+`}]`, 1)},
 		{"binary-event/valid-2", withBin(`52-["a",`+ph0+`,{"a":{"_placeholder":true,"num":1}}]`, 2)},
+		{"binary-event/array-of-half-placeholder-1", withBin(`51-["a",[{"num":1}]]`, 1)},
+		{"binary-event/array-of-half-placeholder-2", withBin(`52-["a",[{"num":2}]]`, 2)},
 		{"binary-event/payload-is-a-string", withBin(`51-"a"`, 1)},
 		{"binary-event/truncated-json", withBin(`51-["a",{"_placeholder":tr`, 1)},
 		{"binary-event/no-args", withBin(`51-["a"]`, 1)},
